@@ -33,7 +33,7 @@ func vArbitraryUpload(maxSize int64, short int) *vUpload {
 	vsym.Assume(l >= 0)
 	vsym.Assume(l <= maxSize+(2<<20))
 	nb := vsym.Int64("nB")
-	vsym.Assume(nb >= 0)
+	vsym.Assume(nb >= 1) // the declared hash is not the hash of the empty blob
 	vsym.Assume(nb <= maxSize+(2<<20))
 	d := vsym.Int64("d")
 	vsym.Assume(d >= 0)
